@@ -35,6 +35,8 @@ import PercevalModel.Lemmas.C20
 import PercevalModel.Lemmas.C20Gates
 import PercevalModel.Lemmas.C20Comp
 import PercevalModel.Lemmas.C20Ryser
+import PercevalModel.Lemmas.C20Place
+import PercevalModel.Lemmas.C20HeraldedCz
 import Mathlib.Analysis.Real.Sqrt
 import Mathlib.Data.Complex.Basic
 
@@ -534,6 +536,141 @@ theorem postprocessed_cz_complex_success (j : Fin 4) :
   rw [eq_div_iff (by norm_num), mul_comm]
   exact h
 
+/-! ### (1b) from a gate's own layout to the processor's layout
+(`Lemmas/C20Lift.lean`: block permanents; `Lemmas/C20Place.lean`: layouts).  `PM.place g B` is the gate matrix `B`
+on the modes selected by the placement, identity elsewhere — what `_compute_circuit_unitary` builds. -/
+
+/-- **spectator factorisation of Fock amplitudes**: a gate placed on some modes acts on the photons of those
+modes as the gate alone does and leaves every other mode alone (`∏ sⱼ!` is the amplitude of the identity) -/
+theorem placed_gate_amplitude [CommRing R] {k m : ℕ} (f : Fin k → Fin m) (g : Fin m → Option (Fin k))
+    (hfg : Function.IsPartialInv f g) (B : Matrix (Fin k) (Fin k) R) (s t : List ℕ)
+    (hs : s.length = m) (ht : t.length = m) :
+    pamp (PM.place g B) s t =
+      if ∀ j : Fin m, g j = none → t.getD j.val 0 = s.getD j.val 0 then
+        ((∏ j : Fin m with g j = none, (s.getD j.val 0).factorial : ℕ) : R) *
+          pamp B (List.ofFn fun a : Fin k => s.getD (f a).val 0) (List.ofFn fun a : Fin k => t.getD (f a).val 0)
+      else 0 :=
+  pamp_place f g hfg B s t hs ht
+
+/-- logical amplitudes of a gate placed (rail by rail, heralds on heralds) in a processor layout -/
+theorem placed_gate_logical_amplitude [CommRing R] {Lg L : Layout} (P : Placement Lg L) (hokg : Lg.ok = true)
+    (hok : L.ok = true) (B : Matrix (Fin Lg.m) (Fin Lg.m) R) (ps : PS) (bo bi : List Bool)
+    (hbo : bo.length = L.qubits.length) (hbi : bi.length = L.qubits.length) :
+    gateAmp (PM.place P.g B) L ps bo bi =
+      if ps.eval (encode L bo) = true then
+        if ∀ j : Fin L.m, P.g j = none → (encode L bo).getD j.val 0 = (encode L bi).getD j.val 0 then
+          (spectFact P bi : R) * gateAmp B Lg PS.tt (P.bits bo) (P.bits bi)
+        else 0
+      else 0 :=
+  gateAmp_place P hokg hok B ps bo bi hbo hbi
+
+/-- a heralded gate (zero leakage on its own layout) is heralded in the processor -/
+theorem placed_gate_no_leak [CommRing R] {Lg L : Layout} (P : Placement Lg L) (hokg : Lg.ok = true)
+    (hok : L.ok = true) (B : Matrix (Fin Lg.m) (Fin Lg.m) R) (hB : NoLeak Lg B) :
+    NoLeak L (PM.place P.g B) :=
+  noLeak_place P hokg hok B hB
+
+/-- … and is a `GateImpl` accepted by `heralded_circuit_implements_product` -/
+theorem placed_gate_is_gateImpl [CommRing R] {Lg L : Layout} (P : Placement Lg L) (hokg : Lg.ok = true)
+    (hok : L.ok = true) (hh : ∀ p ∈ L.heralds, p.2 ≤ 1) (B : Matrix (Fin Lg.m) (Fin Lg.m) R)
+    (G : List Bool → List Bool → R) (c : R)
+    (hB : ∀ bo bi : List Bool, bo.length = Lg.qubits.length → bi.length = Lg.qubits.length →
+      gateAmp B Lg PS.tt bo bi = c * G bo bi)
+    (hN : NoLeak Lg B)
+    (ps : PS) (hps : ∀ b : List Bool, b.length = L.qubits.length → ps.eval (encode L b) = true) :
+    (⟨List.ofFn fun a : Fin Lg.m => (P.f a).val, PM.place P.g B, placedGate P G, c⟩ : GateImpl L R).Ok ps :=
+  gateImpl_place_ok P hokg hok hh B G c hB hN ps hps
+
+/-- **the post-processed CNOT on any two qubits of any processor** (any placement, any sane layout with herald
+values `0/1`): amplitudes `1/3 ·` (CNOT on the selected qubits ⊗ identity), on the outputs the processor's
+post-selection keeps -/
+theorem postprocessed_cnot_anywhere [CommRing R] {L : Layout} (P : Placement ppLayout L) (hok : L.ok = true)
+    (hh : ∀ p ∈ L.heralds, p.2 ≤ 1) (r h : R) (h2 : 2 * h * h = 1) (ps : PS) (bo bi : List Bool)
+    (hbo : bo.length = L.qubits.length) (hbi : bi.length = L.qubits.length) :
+    gateAmp (PM.place P.g (ppcnotCircuit r h)) L ps bo bi =
+      r * r * (if ps.eval (encode L bo) = true ∧
+              ∀ j : Fin L.m, P.g j = none → (encode L bo).getD j.val 0 = (encode L bi).getD j.val 0
+            then twoQubit cnotEntry (P.bits bo) (P.bits bi) else 0) :=
+  postprocessed_cnot_placed P hok hh r h h2 ps bo bi hbo hbi
+
+theorem postprocessed_cz_anywhere [CommRing R] {L : Layout} (P : Placement ppLayout L) (hok : L.ok = true)
+    (hh : ∀ p ∈ L.heralds, p.2 ≤ 1) (r h : R) (h2 : 2 * h * h = 1) (ps : PS) (bo bi : List Bool)
+    (hbo : bo.length = L.qubits.length) (hbi : bi.length = L.qubits.length) :
+    gateAmp (PM.place P.g (ppczCircuit r h)) L ps bo bi =
+      r * r * (if ps.eval (encode L bo) = true ∧
+              ∀ j : Fin L.m, P.g j = none → (encode L bo).getD j.val 0 = (encode L bi).getD j.val 0
+            then twoQubit czEntry (P.bits bo) (P.bits bi) else 0) :=
+  postprocessed_cz_placed P hok hh r h h2 ps bo bi hbo hbi
+
+/-! ### (2b) the heralded CZ (Knill) of the catalog, exactly, and that it is *heralded*
+(`Lemmas/C20HeraldedCz.lean`; component product read from `heralded_cz.py`; `r = 1/√3`, `h = 1/√2`,
+`c2 = cos(θ₂/2) = √((3+√6)/6)`, `s2 = sin(θ₂/2) = √((3−√6)/6)` as ring elements with the five relations below;
+four photons: two qubits + heralds `4:1, 5:1`) -/
+
+/-- **heralded CZ**: logical table exactly `c • CZ` with `27·c² = 2` (success probability `2/27`), no
+post-selection -/
+theorem heralded_cz_exact [CommRing R] (r h c2 s2 : R) (hr : 3 * r * r = 1) (hh : 2 * h * h = 1)
+    (hc : 6 * c2 * c2 = 3 + 6 * h * r) (hs : 6 * s2 * s2 = 3 - 6 * h * r) (hcs : 2 * c2 * s2 = r) :
+    ∃ c : R, 27 * (c * c) = 2 ∧
+      (gateTable (hczCircuit r h c2 s2) hczLayout PS.tt : Matrix (Fin 4) (Fin 4) R) = c • czGate :=
+  ⟨2 * h * r * (r * r), hcz_scalar_sq r h hr hh, hczCircuit_table r h c2 s2 hr hh hc hs hcs⟩
+
+/-- **the heralded CZ is heralded**: with both heralds satisfied it reaches no non-logical state — for every
+output state, not only the enumerated ones -/
+theorem heralded_cz_no_leak [CommRing R] (r h c2 s2 : R) (hr : 3 * r * r = 1) (hh : 2 * h * h = 1)
+    (hc : 6 * c2 * c2 = 3 + 6 * h * r) (hs : 6 * s2 * s2 = 3 - 6 * h * r) (hcs : 2 * c2 * s2 = r) :
+    NoLeak hczLayout (hczCircuit r h c2 s2) :=
+  hczCircuit_noLeak r h c2 s2 hr hh hc hs hcs
+
+/-- the five relations are satisfied by the numbers of the code (over `ℝ`) -/
+theorem heralded_cz_params_exist : ∃ r h c2 s2 : ℝ, 3 * r * r = 1 ∧ 2 * h * h = 1 ∧
+    6 * c2 * c2 = 3 + 6 * h * r ∧ 6 * s2 * s2 = 3 - 6 * h * r ∧ 2 * c2 * s2 = r :=
+  hcz_params_exist
+
+theorem hcz_amp_tt [CommRing R] (r h c2 s2 : R) (hr : 3 * r * r = 1) (hh : 2 * h * h = 1)
+    (hc : 6 * c2 * c2 = 3 + 6 * h * r) (hs : 6 * s2 * s2 = 3 - 6 * h * r) (hcs : 2 * c2 * s2 = r)
+    (bo bi : List Bool) (hbo : bo.length = 2) (hbi : bi.length = 2) :
+    gateAmp (hczMatrix r h c2 s2) hczLayout PS.tt bo bi = (2 * h * r * (r * r)) * twoQubit czEntry bo bi := by
+  match bo, hbo, bi, hbi with
+  | [a, b], _, [c, d], _ => exact hcz_amp r h c2 s2 hr hh hc hs hcs a b c d
+
+/-- **the heralded CZ on any two qubits of any processor** (any placement into a sane layout with herald values
+`0/1`, any post-selection accepting the logical states) is local, heralded and has the table
+`c • (CZ on the selected qubits ⊗ identity)` -/
+theorem heralded_cz_anywhere [CommRing R] {L : Layout} (P : Placement hczLayout L) (hok : L.ok = true)
+    (hhL : ∀ p ∈ L.heralds, p.2 ≤ 1) (r h c2 s2 : R) (hr : 3 * r * r = 1) (hh : 2 * h * h = 1)
+    (hc : 6 * c2 * c2 = 3 + 6 * h * r) (hs : 6 * s2 * s2 = 3 - 6 * h * r) (hcs : 2 * c2 * s2 = r)
+    (ps : PS) (hps : ∀ b : List Bool, b.length = L.qubits.length → ps.eval (encode L b) = true) :
+    (⟨List.ofFn fun a : Fin hczLayout.m => (P.f a).val, PM.place P.g (hczCircuit r h c2 s2),
+      placedGate P (twoQubit czEntry), 2 * h * r * (r * r)⟩ : GateImpl L R).Ok ps := by
+  rw [hczCircuit_eq r h c2 s2 hh]
+  exact gateImpl_place_ok P hczLayout_ok hok hhL _ _ _
+    (fun bo bi hbo hbi => hcz_amp_tt r h c2 s2 hr hh hc hs hcs bo bi hbo hbi)
+    (hcz_noLeak r h c2 s2 hr hh hc hs hcs) ps hps
+
+/-- **end to end: any sequence of heralded CZs** placed on arbitrary qubit pairs of a processor, each with its
+own herald modes: the circuit's logical table is `c^n •` the product of the CZs, and nothing leaks -/
+theorem heralded_cz_circuit [Field R] [CharZero R] {L : Layout} (hok : L.ok = true)
+    (hhL : ∀ p ∈ L.heralds, p.2 ≤ 1) (r h c2 s2 : R) (hr : 3 * r * r = 1) (hh : 2 * h * h = 1)
+    (hc : 6 * c2 * c2 = 3 + 6 * h * r) (hs : 6 * s2 * s2 = 3 - 6 * h * r) (hcs : 2 * c2 * s2 = r)
+    (ps : PS) (hps : ∀ b : List Bool, b.length = L.qubits.length → ps.eval (encode L b) = true)
+    (Ps : List (Placement hczLayout L))
+    (hsep : (Ps.map fun P => (⟨List.ofFn fun a : Fin hczLayout.m => (P.f a).val,
+        PM.place P.g (hczCircuit r h c2 s2), placedGate P (twoQubit czEntry), 2 * h * r * (r * r)⟩ :
+          GateImpl L R)).Pairwise (fun g g' => ∀ hd ∈ L.heralds, hd.1 ∉ g.S ∨ hd.1 ∉ g'.S)) :
+    gateTable (PM.C02.circuitMatrix (Ps.map fun P => PM.place P.g (hczCircuit r h c2 s2))) L ps =
+        ((2 * h * r * (r * r)) ^ Ps.length) •
+          (Ps.foldl (fun M P => placedGate P (twoQubit czEntry) * M)
+            (1 : Matrix (Fin (basis L.qubits.length).length) (Fin (basis L.qubits.length).length) R)) ∧
+      NoLeak L (PM.C02.circuitMatrix (Ps.map fun P => PM.place P.g (hczCircuit r h c2 s2))) := by
+  have key := heralded_circuit_implements L hok hhL ps hps _
+    (fun g hg => by
+      obtain ⟨P, _, rfl⟩ := List.mem_map.1 hg
+      exact heralded_cz_anywhere P hok hhL r h c2 s2 hr hh hc hs hcs ps hps) hsep
+  simp only [List.map_map, Function.comp_def, List.map_const', List.prod_replicate,
+    List.foldl_map] at key
+  exact key
+
 /-! ### (4) Ryser's formula (the driver's evaluation above six photons) is the permanent
 (`Lemmas/C20Ryser.lean`) -/
 
@@ -607,6 +744,48 @@ example : (⟨[0, 1], 1, 1, 1⟩ : GateImpl ⟨3, [0], [(2, 1)]⟩ ℚ).Ok PS.tt
 
 -- `3r² = 1`, `2h² = 1` have solutions (`invSqrt3_spec`, `invSqrt2_spec` over ℂ); `pp_selected…`: a selected state
 example : ppPS.eval [1, 0, 0, 1, 0, 0] = true := by decide
+
+-- a placement exists: post-processed CNOT with control on qubit 2, data on qubit 0 of a 3-qubit processor
+example : Nonempty (Placement ppLayout exL) ∧ exL.ok = true ∧ (∀ p ∈ exL.heralds, p.2 ≤ 1) :=
+  ⟨⟨exPlacement'⟩, by decide, by decide⟩
+
+-- two heralded CZs on a 3-qubit processor (qubits 0,1 with heralds 6,7; qubits 1,2 with heralds 8,9): placements
+-- exist and their supports share no herald mode
+def exL2 : Layout := ⟨10, [0, 2, 4], [(6, 1), (7, 1), (8, 1), (9, 1)]⟩
+
+def exP1 : Placement ⟨6, [0, 2], [(4, 1), (5, 1)]⟩ ⟨10, [0, 2, 4], [(6, 1), (7, 1), (8, 1), (9, 1)]⟩ where
+  φ := fun a => [0, 1, 2, 3, 6, 7].getD a 0
+  g := (![some 0, some 1, some 2, some 3, none, none, some 4, some 5, none, none] : Fin 10 → Option (Fin 6))
+  sel := [0, 1]
+  φ_lt := by decide
+  inv := by
+    unfold Function.IsPartialInv
+    change ∀ (x : Fin 6) (y : Fin 10), _
+    decide
+  sel_length := rfl
+  sel_lt := by decide
+  qubit := by decide
+  herald := by decide
+
+def exP2 : Placement ⟨6, [0, 2], [(4, 1), (5, 1)]⟩ ⟨10, [0, 2, 4], [(6, 1), (7, 1), (8, 1), (9, 1)]⟩ where
+  φ := fun a => [2, 3, 4, 5, 8, 9].getD a 0
+  g := (![none, none, some 0, some 1, some 2, some 3, none, none, some 4, some 5] : Fin 10 → Option (Fin 6))
+  sel := [1, 2]
+  φ_lt := by decide
+  inv := by
+    unfold Function.IsPartialInv
+    change ∀ (x : Fin 6) (y : Fin 10), _
+    decide
+  sel_length := rfl
+  sel_lt := by decide
+  qubit := by decide
+  herald := by decide
+
+example : exL2.ok = true ∧ (∀ p ∈ exL2.heralds, p.2 ≤ 1) ∧
+    (List.ofFn fun a : Fin 6 => (exP1.f a).val) = [0, 1, 2, 3, 6, 7] ∧
+    (List.ofFn fun a : Fin 6 => (exP2.f a).val) = [2, 3, 4, 5, 8, 9] ∧
+    (∀ hd ∈ exL2.heralds, hd.1 ∉ [0, 1, 2, 3, 6, 7] ∨ hd.1 ∉ [2, 3, 4, 5, 8, 9]) := by
+  decide
 
 -- Ryser on a concrete 3×3 matrix
 example : permRyser (fun i j => ((3 * i + j + 1 : ℕ) : ℤ)) [0, 1, 2] [0, 1, 2] = 450 := by decide
